@@ -4,7 +4,7 @@ Python in this package only (a) concretises abstract cases into library calls, (
 objects back to abstract values (ints / strings / lists) and (c) book-keeps.  Every accept/reject
 decision is taken by a TLA+ module evaluated by TLC (spec/Judge_*.tla, spec/Trace_*.tla, spec/MC_*.tla).
 """
-import os, sys, json, time, hashlib, signal, traceback, random, warnings
+import os, re, sys, json, time, hashlib, signal, traceback, random, warnings
 
 VERIF = os.path.dirname(os.path.dirname(os.path.abspath(__file__)))
 REPO = os.environ.get("VERIF_REPO", "/repo")
@@ -119,18 +119,43 @@ class Ctx:
         return cases, out
 
     def judge(self, module, cases_path, obs_path, cfg=None, timeout=3600, env=None):
-        """Hand observations to the TLA+ judge.  Returns (n_consumed, [(cid, why)])."""
+        """Hand observations to the TLA+ judge.  Returns (n_consumed, [(cid, why)]).
+
+        The judges evaluate exact 32-bit integer arithmetic on what was observed; an observation so far out of range that TLC cannot
+        evaluate the comparison (overflow, a value of the wrong shape) stops TLC at that observation.  That observation is then rejected
+        with the clause "observation-cannot-be-evaluated" and the remaining ones are judged in a further run (total verdict)."""
         cfg = cfg or module + ".cfg"
-        e = {"CASES": cases_path, "OBS": obs_path}
-        e.update(env or {})
-        r = tlc.run(module, cfg, workers=1, timeout=timeout, deadlock=False, env=e)
-        v = r.printed("VERDICT")
-        if "Error:" in r.out or len(v) != 1:
-            raise Machinery("judge %s failed:\n%s" % (module, "\n".join(r.out.splitlines()[-40:])))
+        lines = [l for l in open(obs_path) if l.strip()]
+        rejected = []
+        cur = obs_path
+        for attempt in range(40):
+            e = {"CASES": cases_path, "OBS": cur}
+            e.update(env or {})
+            r = tlc.run(module, cfg, workers=1, timeout=timeout, deadlock=False, env=e)
+            v = r.printed("VERDICT")
+            if "Error:" not in r.out and len(v) == 1:
+                break
+            m = re.findall(r"/\\ (l|ci) = (\d+)", r.out)
+            if "The error occurred when TLC was evaluating" not in r.out or not m or not lines:
+                raise Machinery("judge %s failed:\n%s" % (module, "\n".join(r.out.splitlines()[-40:])))
+            name, val = m[-1][0], int(m[-1][1])
+            k = val if name == "l" else val - 1                      # 0-based index of the observation TLC was evaluating
+            if not (0 <= k < len(lines)):
+                raise Machinery("judge %s failed:\n%s" % (module, "\n".join(r.out.splitlines()[-40:])))
+            rejected.append((json.loads(lines[k])["cid"], "observation-cannot-be-evaluated"))
+            del lines[k]
+            cur = obs_path + ".rest"
+            with open(cur, "w") as f:
+                f.writelines(lines)
+            if not lines:
+                self._account(r, module, cfg, "judge")
+                return len(rejected), rejected
+        else:
+            raise Machinery("judge %s: more than 40 observations could not be evaluated" % module)
         self._account(r, module, cfg, "judge")
         val = tlc.parse_value("<<" + v[0] + ">>")
         n, bad = val[0], val[1]
-        return n, [(b[0], b[1]) for b in bad]
+        return n + len(rejected), rejected + [(b[0], b[1]) for b in bad]
 
     # ---------------- generator -> executor -> judge ----------------
     def run_cases(self, stage, cases, cases_path, execute, judge_module, keyfn, nontrivial=None, judge_cfg=None,
@@ -183,6 +208,8 @@ class Ctx:
         p = os.path.join(self.work, stage + ".cases.ndjson")
         with open(p, "w") as f:
             for k, c in enumerate(cases):
+                if "vid" not in c and "cid" in c:
+                    c["vid"] = c["cid"]          # a replayed case keeps the number that selected its variants
                 c["cid"] = k + 1
                 f.write(json.dumps(c) + "\n")
         self.exhaustive = False
